@@ -109,6 +109,8 @@ def _build(case):
                 loc = {}
                 exec(src, {}, loc)
                 ns[pyname] = O.dbusMethod(ispec['name'], m['name'])(loc[pyname])
+    if len(case['path']) % 2:
+        sub_ns['__len__'] = lambda self: 0      # an exported object that is false in a boolean context (an empty container)
     Base = type('VBase', (O.DBusObject,), base_ns)
     Sub = type('VSub', (Base,), sub_ns)
     obj = Sub(case['path'])
